@@ -301,6 +301,14 @@ def seq_case(rng, mode):
     return case
 
 
+def hsr_case(rng, mode):
+    """one connection, several calls (h = tls_handshake, w = tls_write, r = tls_read) on the SAME
+    client context: the verdict of the first call must be the verdict of every later call"""
+    base = hs_case(rng, mode) if rng.chance(3, 4) else long_case(rng, "hs", mode, maxname=200)
+    script = "".join(rng.choice("hhhwr") for _ in range(2 + rng.below(5)))
+    return ["hsr %s %s %s" % (mode, script, base[0].split(" ", 2)[2])]
+
+
 def pton_cases(rng, mode, n):
     out = [["pton %s %s" % (mode, vf.hexs(s))] for s in IP_LITS]
     pal = [b"0", b"1", b"2", b"5", b"9", b".", b":", b"a", b"F", b"g", b" ", b"f"]
@@ -407,6 +415,8 @@ def tally(ck, impl_lines):
             k = " ".join(l.split()[:2])
         elif l.startswith("hs="):
             k = l
+        elif l.startswith("calls="):
+            k = "retry " + "/".join(sorted(set(l[6:].split(","))))
         elif l[:2] in ("4:", "6:"):
             k = "pton " + l[:1]
         elif l == "none":
@@ -484,7 +494,8 @@ def run(ck):
                       "uses long names at the boundaries 63..66, 127..130, 255/256 (exact, one byte longer/shorter, "
                       "proper-prefix + '.evil', wildcard cut at the boundary, NUL after the boundary); handshake "
                       "cases also as sequences on ONE client context (failed connect or full handshake for name A, "
-                      "optional tls_reset, handshake for name B); plus the "
+                      "optional tls_reset, handshake for name B) and as retry scripts on ONE connection (2-6 further "
+                      "tls_handshake / tls_write / tls_read calls after the first verdict, which must not change); plus the "
                       "exhaustive set of (cert string, name) pairs over {a,b,*,.,-} (range-hash, as dNSName and as "
                       "CN); every case is run in mode g (platform inet_pton) and mode c (usual/socket_pton.c); "
                       "distinct_nontrivial = distinct op lines whose certificate carries at least one name (the pairs of "
@@ -552,6 +563,11 @@ def run(ck):
     nfail += par_compare(ck, hs[plat], dcmd, scases, "context-reuse", chunk=25, workers=12)
     ck.sample(" ; ".join(scases[0]))
     mark("context-reuse")
+    # one connection, retried: handshake again / write / read after the first verdict
+    rcases = [hsr_case(rng, plat) for _ in range(ck.scale(250, 1500))]
+    nfail += par_compare(ck, hs[plat], dcmd, rcases, "retry", nontrivial=nontrivial, chunk=25, workers=12)
+    ck.sample(rcases[0][0])
+    mark("retry")
     ck.cov["traces_validated_against_impl"] = ck.cov["evaluations"]
     ck.cov["exhaustive"] = False
     if not ck.quick():
